@@ -43,6 +43,12 @@ def assign (s : RStr) (xs : List Nat) : RStr := { (s.grow xs.length) with chars 
 def append (s : RStr) (xs : List Nat) : RStr :=
   { (s.grow (s.chars.length + xs.length)) with chars := s.chars ++ xs }
 
+/-- `*this = std::move(tmp)` with `tmp` a temporary built from `xs` on the same resource: move
+assignment swaps, so the string takes over the temporary's buffer (exactly `xs.length`
+characters, or the in-object buffer) — capacity handed in by the caller, not retained capacity -/
+def moveFrom (s : RStr) (xs : List Nat) : RStr :=
+  { s with chars := xs, cap := if xs.length ≤ ssoCap then ssoCap else xs.length }
+
 /-- `clear()` — also what `ReusableTraits::reconstruct(str, alloc)` does -/
 def clear (s : RStr) : RStr := { s with chars := [] }
 
